@@ -25,21 +25,18 @@ EXTENDS FloatDef
 CONSTANTS Bases, MaxSig, MaxExp, MaxPrec, TH
 
 Modes == {"Zero", "Away", "Up", "Down", "HalfEven", "HalfAway"}
-RECURSIVE Pw(_, _)
-Pw(b, n) == IF n = 0 THEN 1 ELSE b * Pw(b, n - 1)
+\* b^n, n >= 0  (folds only: RECURSIVE operators make TLC's -coverage start-up diverge)
+Pw(b, n) == FoldLeft(LAMBDA a, i : a * b, 1, [i \in 1..n |-> i])
 Abs(a) == IF a < 0 THEN -a ELSE a
 Sgn(a) == IF a < 0 THEN -1 ELSE IF a > 0 THEN 1 ELSE 0
-RECURSIVE DigN(_, _)
-DigN(b, m) == IF m = 0 THEN 0 ELSE 1 + DigN(b, m \div b)
-Dig(b, m) == DigN(b, Abs(m))                      \* digit_len
+\* digit_len: number of base-b digits of |m| (0 for 0); native values are below 2^31 <= b^31
+Dig(b, m) == FoldLeft(LAMBDA acc, i : IF acc[2] = 0 THEN acc ELSE <<acc[1] + 1, acc[2] \div b>>, <<0, Abs(m)>>, [i \in 1..31 |-> i])[1]
 \* truncating division (IBig div_rem)
 Tq(a, b) == Sgn(a) * Sgn(b) * (Abs(a) \div Abs(b))
 Tr(a, b) == a - b * Tq(a, b)
 Cmp3(a, b) == IF a < b THEN -1 ELSE IF a > b THEN 1 ELSE 0
 \* n with big = small^n (n >= 1), 0 if big is not a power of small   (utils::ilog_exact)
-RECURSIVE ILogExact(_, _, _, _)
-ILogExact(big, small, acc, n) == IF acc = big THEN n ELSE IF acc > big THEN 0 ELSE ILogExact(big, small, acc * small, n + 1)
-PowerOf(big, small) == ILogExact(big, small, small, 1)
+PowerOf(big, small) == LET ns == {n \in 1..8 : Pw(small, n) = big} IN IF ns = {} THEN 0 ELSE CHOOSE n \in ns : TRUE
 
 \* --- round.rs: Round::round_low_part, per mode; low_sign in {-1, 1}; half = cmp(2|low|, unit)
 RLP(mode, integer, lowsign, half) ==
@@ -62,6 +59,10 @@ RoundFract(mode, T, hi, lo, shift) == IF lo = 0 THEN 0 ELSE RLP(mode, hi, Sgn(lo
 RoundRatio(mode, q, r, den) == IF r = 0 THEN 0 ELSE RLP(mode, q, Sgn(r) * Sgn(den), Cmp3(2 * Abs(r), Abs(den)))
 
 Res(sig, exp, flag) == [k |-> "ok", sig |-> sig, exp |-> exp, flag |-> flag]
+\* Repr::new: strip trailing zero digits of the significand (zero gets exponent 0): <<sig, exp>>
+Normal(T, sig, exp) ==
+  IF sig = 0 THEN <<0, 0>>
+  ELSE FoldLeft(LAMBDA acc, i : IF acc[1] % T = 0 THEN <<Tq(acc[1], T), acc[2] + 1>> ELSE acc, <<sig, exp>>, [i \in 1..31 |-> i])
 \* Context::repr_round
 ReprRound(mode, T, p, sig, exp) ==
   IF Dig(T, sig) > p
@@ -104,6 +105,7 @@ Init == /\ pc = "pick" /\ fn \in {"convert", "with_precision"} /\ B \in Bases /\
         /\ sig = 0 /\ exp = 0 /\ p = 1 /\ branch = "" /\ out = None
 Pick == /\ pc = "pick" /\ pc' = "run"
         /\ sig' \in -MaxSig..MaxSig /\ exp' \in -MaxExp..MaxExp /\ p' \in 1..MaxPrec
+        /\ (IF sig' = 0 THEN exp' = 0 ELSE sig' % B # 0)            \* the operand is a normalised Repr
         /\ UNCHANGED <<fn, B, T, mode, branch, out>>
 Finish(b, o) == pc' = "done" /\ branch' = b /\ out' = o /\ UNCHANGED <<fn, B, T, mode, sig, exp, p>>
 
@@ -113,7 +115,9 @@ General == Conv /\ T # B /\ PowerOf(T, B) <= 1 /\ PowerOf(B, T) <= 1
 Same == Conv /\ T = B /\ Finish("Same", Res(sig, exp, "Exact"))
 \* if NewB > B { n = ilog_exact(NewB, B); if n > 1 { (exp, rem) = exponent.div_rem_euclid(n); repr_round(signif * B^rem, exp) } }
 PowUp == Conv /\ T > B /\ PowerOf(T, B) > 1
-         /\ LET n == PowerOf(T, B) IN Finish("PowUp", ReprRound(mode, T, p, sig * Pw(B, RemE(exp, n)), DivE(exp, n)))
+         /\ LET n == PowerOf(T, B)
+                r == Normal(T, sig * Pw(B, RemE(exp, n)), DivE(exp, n))          \* Repr::new(signif, exp)
+            IN Finish("PowUp", ReprRound(mode, T, p, r[1], r[2]))
 \* else { n = ilog_exact(B, NewB); if n > 1 { Exact(signif, exponent * n) } }
 PowDown == Conv /\ T < B /\ PowerOf(B, T) > 1
            /\ Finish("PowDown", Res(sig, exp * PowerOf(B, T), "Exact"))
